@@ -107,19 +107,23 @@ def run(ctx):
                     if fam in ('kcyc', 'band', 'sym', 'tab', 'kview'):
                         ctx.sample(smp)
 
-    # vector diag on grids where the start-up loop of parsec_vector_two_dim_cyclic_init does not terminate:
-    # single-case probes, stall rule (two stalls with the same input = "no progress")
+    # vector diag on grids where the start-up loop of parsec_vector_two_dim_cyclic_init does not terminate: single-case
+    # probes.  The harness bounds the constructor by the CPU time it consumes (work, not wall-clock), so the verdict
+    # does not depend on the load of the machine; the heartbeat stall rule only remains as a backstop.
     probes = [(1, 2)] if not thorough else [(1, 2), (2, 3), (2, 4), (3, 5)]
-    for P, Q in probes:
+
+    def probe(pq):
+        P, Q = pq
         cmd = [exes['rel'], '--probe-vec-diag', '--P', str(P), '--Q', str(Q), '--seed', str(ctx.seed)]
         k = [0]
 
         def runner():
             k[0] += 1
-            return ctx.run(cmd, timeout=120, stall_s=8, tag='probe-%dx%d-%d' % (P, Q, k[0]))
+            return ctx.run(cmd, timeout=900, stall_s=240, tag='probe-%dx%d-%d' % (P, Q, k[0]))
         r, st = ctx.run_with_stall_rule(runner, 'vector diag on a %dx%d grid (every rank view initialised in turn)' % (P, Q), feature='vec-diag')
         ctx.add_cov('vec_diag_probes', 1)
         if st in ('ok', 'violation', 'known'):
             ctx.evaluations += 1
+    ctx.pmap(probe, probes, jobs=4)
     ctx.cov['flavours'] = ['asan (assertions on)', 'rel (-O2 -DNDEBUG)']
     ctx.cov['families'] = sorted(QUICK.keys())
